@@ -719,8 +719,130 @@ def check_C09(tier, seed):
     return out.finish()
 
 
+# ----------------------------------------------------------------------------------------------
+# M-nn: candidate stream (C17)
+# ----------------------------------------------------------------------------------------------
+def nn_cases(seed, tier):
+    """Lattice inputs for the candidate stream: full lattices (many equidistant points), random subsets, clusters,
+    1D/2D/3D, cubic and anisotropic periods, small (all queries, full stream) and large (sampled queries, prefix)."""
+    rng = random.Random(seed * 31 + 5)
+    cases = []
+    embs = [dict(h=1.0, o=[0.0, 0.0, 0.0]), dict(h=0.1, o=[-17.25, 3.5, 0.7]), dict(h=7.3, o=[1000.0, -1000.0, 250.0]),
+            dict(h=64.0, o=[0.0, 0.0, 0.0]), dict(h=1e-3, o=[5.0, 5.0, 5.0])]
+
+    def add(G, dim, per, gens, queries, limit, emb):
+        cases.append({"id": len(cases), "G": list(G), "dim": dim, "per": per, "gens": [list(g) for g in gens],
+                      "queries": queries, "limit": limit, "emb": emb})
+
+    small = 24 if tier == "quick" else 120
+    for k in range(small):
+        dim = [3, 2, 1, 3][k % 4]
+        per = (k // 4) % 2 == 0
+        aniso = (k % 3 == 0)
+        if aniso:
+            G = [rng.choice([2, 3, 5, 8]), rng.choice([2, 3, 5, 8]), rng.choice([2, 3, 5, 8])]
+        else:
+            g = rng.randint(2, 6)
+            G = [g, g, g]
+        for a in range(dim, 3):
+            G[a] = 1
+        pts = lattice_points(G, dim, per)
+        kind = k % 3
+        if kind == 0 and len(pts) <= 80:
+            sel = pts                                        # full lattice
+        elif kind == 1:
+            sel = rng.sample(pts, min(len(pts), rng.randint(1, 30)))
+        else:
+            c = rng.choice(pts)
+            near = [p for p in pts if max(abs(p[a] - c[a]) for a in range(3)) <= 1]
+            sel = list(set(rng.sample(near, min(len(near), 6)) + rng.sample(pts, min(len(pts), 5))))
+        sel = sorted(set(sel))
+        emb = dict(embs[k % len(embs)])
+        if dim < 3 and k % 2 == 0:
+            emb["junk"] = True
+        nq = len(sel) if len(sel) <= 12 else 6
+        queries = sorted(rng.sample(range(len(sel)), nq))
+        add(G, dim, per, sel, queries, 100000, emb)
+    # large inputs: 10^3 (quick) .. 10^4 (thorough) lattice points, the prefix the builder consumes
+    big = [(9, 3, True), (9, 3, False), (31, 2, True)] if tier == "quick" else [(9, 3, True), (9, 3, False), (21, 3, True), (21, 3, False), (99, 2, True), (999, 1, True)]
+    for (g, dim, per) in big:
+        G = [g + (1 if per else 0)] * 3
+        for a in range(dim, 3):
+            G[a] = 1
+        pts = lattice_points(G, dim, per)
+        if rng.random() < 0.5:
+            pts = rng.sample(pts, int(len(pts) * 0.7))
+        pts = sorted(pts)
+        queries = sorted(rng.sample(range(len(pts)), 4 if tier == "quick" else 10))
+        add(G, dim, per, pts, queries, 600 if tier == "quick" else 2000, dict(embs[len(cases) % len(embs)]))
+    return cases
+
+
+def check_C17(tier, seed):
+    out = Outcome("C17", tier, seed)
+    ensure_dirs()
+    # design level: best-first traversal of every small tree over every small point set, all pop orders among equal keys
+    sets = [("square", 2, True), ("line4", 1, True), ("skew", 2, True), ("cube5", 3, False)]
+    if tier == "thorough":
+        sets += [("lshape", 2, True), ("cube5", 3, True), ("square", 2, False)]
+    for (ps, dim, per) in sets:
+        for qi in ([1] if tier == "quick" else [1, 2]):
+            cfg = os.path.join(OUT, "tlc", "vnn_%s_%d.cfg" % (ps, qi))
+            write_cfg(cfg, constants=dict(Points=("<-", "MCPoints"), QI=qi, GW=("<-", "MCGW"), Dim=dim, Per=per,
+                                          Trees=("<-", "MCTrees"), KeyMode="clamp", PSet=ps),
+                      invariants=["LowerBound", "Sorted", "NoDup", "SelfFirst", "PrefixOfAll", "Complete", "DistanceRight"],
+                      view="HeapView")
+            r = run_tlc("mc/MCVNN.tla", cfg, timeout=1500)
+            if r.violation:
+                raise ToolError("VNN model violates its own invariant (%s): %s" % (ps, r.violation))
+            out.coverage["states"] = out.coverage.get("states", 0) + r.distinct
+            out.coverage["transitions"] = out.coverage.get("transitions", 0) + r.states
+            out.coverage.setdefault("models", {})["%s/q%d" % (ps, qi)] = dict(states=r.distinct, wall=round(r.wall, 1))
+            log("VNN model %s q%d: %d states (%.1fs)" % (ps, qi, r.distinct, r.wall))
+    # implementation: recorded streams validated by VNNTrace
+    cases = nn_cases(seed, tier)
+    cf = os.path.join(OUT, "C17_cases.ndjson")
+    with open(cf, "w") as f:
+        for c in cases:
+            f.write(json.dumps(c) + "\n")
+    binp = build_harness()
+    tf = os.path.join(OUT, "C17_trace.ndjson")
+    run_harness(binp, ["nn", "--cases", cf, "--trace", tf])
+    cfg = os.path.join(OUT, "tlc", "vnntrace.cfg")
+    write_cfg(cfg, spec="TSpec", invariants=["Consumed"], postcondition="TraceAccepted")
+    r = run_tlc("trace/VNNTrace.tla", cfg, workers=1, dfs=True, env_extra={"VV_TRACE": tf}, tags=("VERDICT",), timeout=3000, xmx="8g")
+    if r.violation or not r.ok:
+        raise ToolError("VNNTrace could not consume the trace: %s\n%s" % (r.violation or r.error, r.raw_tail[-2000:]))
+    lines = open(tf).read().splitlines()
+    ok = 0
+    entries = 0
+    for _, v in r.cases:
+        entries += v["m"]
+        if not v["failed"]:
+            ok += 1
+            continue
+        rec = json.loads(lines[v["line"] - 1])
+        rec["seq"] = rec["seq"][:60]
+        case = cases[rec["id"]]
+        for x in v["failed"]:
+            out.violation("%s (query %d of input %d: G=%s dim=%d per=%s n=%d)" % (x, v["qi"], rec["id"], rec["G"], rec["dim"], rec["per"], len(rec["gens"])),
+                          {"trace_line": rec, "embedding": case["emb"]})
+    out.coverage.update({
+        "traces_validated_against_impl": ok,
+        "evaluations": len(r.cases),
+        "distinct_nontrivial": len(r.cases),
+        "stream_entries_checked": entries,
+        "rule": "one stream per (lattice input, query generator, embedding); full streams (n*3^d entries) for inputs up to ~80 points, "
+                "prefixes of 600/2000 entries for 10^3..10^4 points; every squared distance recomputed exactly by TLC; distinct = streams",
+        "samples": [{k: (v if k != "gens" else v[:8]) for k, v in cases[0].items()}, {k: (v if k != "gens" else v[:8]) for k, v in cases[-1].items()}],
+    })
+    out.assumptions = ["lattice inputs only on the implementation side (distances are exact integers for TLC); float rounding cannot reorder "
+                       "distinct integer squared distances", "TLC evaluates VNN / VNNTrace correctly"]
+    return out.finish()
+
+
 CHECKS = {"C01": check_C01, "C02": check_C02, "C04": check_C04, "C05": check_C05, "C06": check_C06,
-          "C08": check_C08, "C16": check_C16, "C03": check_C03, "C07": check_C07, "C12": check_C12, "C13": check_C13, "C09": check_C09}
+          "C08": check_C08, "C16": check_C16, "C03": check_C03, "C07": check_C07, "C12": check_C12, "C13": check_C13, "C09": check_C09, "C17": check_C17}
 
 
 def run_check(pid, tier, seed):
